@@ -59,11 +59,10 @@ Definition cls_pct_marker (g : graph) (tr : list (Z * Z)) : bool :=
   | Ok r => existsb (fun km => pct_then_digit (snd km)) (r_mtrace r)
   | Err _ => false
   end.
-(** 0 = outside every class.  Classes 1 (branch_edge_order) and 2 (ring_edge_order) were REPAIRED in /repo
-    (fix commits be4ff6e and dd9a0c2): their predicates above are kept only to describe the corpus witnesses;
-    they excuse nothing any more.  Class 3 is still open. *)
-Definition class_C07 (g : graph) (tr : list (Z * Z)) : nat :=
-  if cls_pct_marker g tr then 3%nat else 0%nat.
+(** 0 = outside every class.  Classes 1 (branch_edge_order), 2 (ring_edge_order) and 3 (pct_marker_then_digit)
+    were REPAIRED in /repo (fix commits be4ff6e, dd9a0c2 and b681517): their predicates above are kept only to
+    describe the corpus witnesses; they excuse nothing any more.  No class of C07 is open. *)
+Definition class_C07 (g : graph) (tr : list (Z * Z)) : nat := 0%nat.
 
 (** ------------------------------------------------------------------ isomorphism by witness *)
 (** what is compared: names of nodes, integer orders of edges *)
